@@ -1,6 +1,6 @@
 """C41 Built-in transformations leave a well-formed IR.
 
-spec: WellFormedIR.tla (scope tree + symbol occurrences: ParentLink, ScopeOnChain, Resolvable; recorded facts
+spec: WellFormedIR.tla (scope tree + symbol occurrences: ParentLink, ScopeOnChain, Resolvable, UniqueNames; recorded facts
       FrontendAccepts, CompilerAccepts), MC_WellFormedIR (design check on an abstract unit tree: correct
       transformation steps keep the clauses, their faulty variants are rejected), Trace_WellFormedIR (clauses on the
       structures exported from real Loki IR after each registry transformation; TLC names the offending symbols).
@@ -15,7 +15,7 @@ from .. import lib_fm as F
 from .. import lib_wfir as W
 from ..core import MachineryError
 
-CLAUSES = {'PL': 'ParentLink', 'SC': 'ScopeOnChain', 'RS': 'Resolvable', 'FA': 'FrontendAccepts', 'CA': 'CompilerAccepts'}
+CLAUSES = {'PL': 'ParentLink', 'SC': 'ScopeOnChain', 'RS': 'Resolvable', 'UN': 'UniqueNames', 'FA': 'FrontendAccepts', 'CA': 'CompilerAccepts'}
 
 
 def apply_chain(prog, names, reg, workdir, tag):
@@ -59,7 +59,9 @@ def run(ctx):
     if os.environ.get('VERIF_C41_ONLY'):      # (development: restrict the registry)
         reg_list = [(n, f) for n, f in reg_list if any(w in n for w in os.environ['VERIF_C41_ONLY'].split(','))]
     reg = dict(reg_list)
-    nprog = int(os.environ.get('VERIF_C41_N', 0)) or (3 if ctx.quick else 12)
+    # strata: all-lowercase programs and case-mixed programs (identifiers spelled lower / UPPER / Capitalised per
+    # occurrence; callee locals clash with caller variables up to letter case only), alternating
+    nprog = int(os.environ.get('VERIF_C41_N', 0)) or (4 if ctx.quick else 12)
     npairs = 0 if ctx.quick else 25
     if ctx.replay:
         c = ctx.replay['case']
@@ -69,7 +71,7 @@ def run(ctx):
         progs, plans = [], []
         for i in range(nprog):
             g = W.WFGen(ctx.rng)
-            progs.append(g.program(nstmts=ctx.rng.randint(3, 6), depth=2))
+            progs.append(g.program(nstmts=ctx.rng.randint(3, 6), depth=2, casemix=ctx.rng.getrandbits(30) if i % 2 == 1 else None))
             plan = [('base', [])] + [('t', [nm]) for nm, _ in reg_list]
             names = [nm for nm, _ in reg_list]
             for _ in range(npairs):
@@ -150,6 +152,9 @@ def run(ctx):
                     what = f'gfortran -fsyntax-only rejects the generated code: {r["compile_msg"][:700]}'
                 elif code == 'FA':
                     what = f'the frontend does not re-parse the generated code ({sym})'
+                elif code == 'UN':
+                    sc = [(x['kind'], x['name']) for x in r['S'] if x['decls'].count(sym) > 1]
+                    what = f'the name {sym!r} is declared more than once (up to letter case) in scope {sc}'
                 elif code == 'PL':
                     sc = next((s for s in r['S'] if s['name'] == sym and s['kind'] == kind and (s['parent'] != s['encl'] or s['tparent'] != s['encl'])), None)
                     what = f'scope {kind} {sym!r}: parent pointer / symbol-table parent is not the enclosing scope: {sc}'
@@ -168,6 +173,7 @@ def run(ctx):
 
     ctx.cover.update(stats)
     ctx.cover['programs'] = len(progs)
+    ctx.cover['programs_case_mixed'] = sum(1 for p in progs if p.get('casemix') is not None)
     ctx.cover['registry_entries'] = len(reg_list)
     ctx.cover['pairs_applied'] = len([r for r in pairs if r['status'] == 'ok'])
     if not ctx.replay and stats['applied'] < 0.5 * len(singles):
@@ -178,7 +184,8 @@ def run(ctx):
     ctx.assumptions += [
         'programs: lib_fm kernel modules (all statement kinds incl. associate, calls, function references, sections) + an internal '
         'procedure using host variables, marked inline calls, an outline region, loop pragmas, a sequence-association call; '
-        'they only have to compile (behaviour is judged by C28-C39)',
+        'they only have to compile (behaviour is judged by C28-C39); every second program is case-mixed (random letter case per '
+        'identifier occurrence) and its callee locals clash with caller variables up to letter case only',
         'transformations are applied without the Scheduler (role/targets passed by hand); HoistVariables, Parametrise, '
         'DuplicateKernel/RemoveKernel, SCC and pool-allocator pipelines need Items and are covered by C37/C38/C39',
         'a transformation that raises (documented not-applicable, NotImplementedError or any other exception) is counted '
